@@ -188,6 +188,14 @@ func (p *Pair) serverLogic(code codes.Code, tok []byte, opts message.Options, bo
 		}
 		p.obsTokens.Delete(string(tok))
 		respond(codes.Content, []byte("obs-cancelled"))
+	case "obsx":
+		if v, err := opts.Observe(); err == nil && v == 0 {
+			p.obsTokens.Store(string(tok), struct{}{})
+			respond(codes.Content, []byte("obs-first"), message.Option{ID: message.Observe, Value: []byte{1}})
+			return
+		}
+		p.obsTokens.Delete(string(tok))
+		respond(codes.NotFound, nil)
 	case "slow":
 		time.Sleep(2 * time.Millisecond) // longer than any cancel delay used by the workloads
 		respond(codes.Content, []byte("slow"))
@@ -645,7 +653,16 @@ func (p *Pair) Run(x Exchange, rnd *rand.Rand, hk *Hooks) Result {
 		}
 	case "observe", "observe-live":
 		var n atomic.Int64
-		o, err := p.observe(ctx, fmt.Sprintf("/obs%s/%d", mk, x.ID), func(m *pool.Message) {
+		opath := fmt.Sprintf("/obs%s/%d", mk, x.ID)
+		switch x.Outcome {
+		case "notfound": // the registration is refused with an error code
+			opath = fmt.Sprintf("/missing/%d", x.ID)
+		case "unsupported": // 2.05 without an Observe option: the resource is not observable
+			opath = fmt.Sprintf("/ok/obs/%d", x.ID)
+		case "cancelfail": // registration fine, the deregistration is refused
+			opath = fmt.Sprintf("/obsx/%d", x.ID)
+		}
+		o, err := p.observe(ctx, opath, func(m *pool.Message) {
 			n.Add(1)
 			if hk != nil && hk.OnNotify != nil {
 				hk.OnNotify(m)
@@ -759,6 +776,9 @@ func Outcomes(kind, xkind string) []string {
 		if xkind == "get" {
 			return []string{"ok", "cancel", "notfound"}
 		}
+		if xkind == "observe" {
+			return []string{"ok", "cancel", "notfound", "unsupported", "cancelfail"}
+		}
 		return []string{"ok", "cancel"}
 	}
 	switch xkind {
@@ -769,7 +789,7 @@ func Outcomes(kind, xkind string) []string {
 	case "bigpost":
 		return []string{"ok", "silent", "cancel", "rst", "garbage", "dup", "werr"}
 	case "observe":
-		return []string{"ok", "silent", "cancel", "rst", "dup"}
+		return []string{"ok", "silent", "cancel", "rst", "dup", "notfound", "unsupported", "cancelfail"}
 	case "ping":
 		return []string{"ok"}
 	case "oneway", "oneway-big":
